@@ -20,7 +20,8 @@ static char prev_success[M_COUNT][CRYPT_OUTPUT_SIZE];
 
 enum { ST_FRESH, ST_SUCCESS, ST_FAILURE, NSTATES };
 static const char *const stname[] = { "fresh", "holding-success", "holding-failure" };
-static const char *const epname[] = { "crypt_rn", "crypt_r", "crypt_ra", "crypt" };
+static const char *const epname[] = { "crypt_rn", "crypt_r", "crypt_ra", "crypt", "crypt_ra(no handle yet)", "crypt_ra(undersized handle)" };
+static void *ra_dp;           /* entry points 4 and 5: the handle crypt_ra allocates or replaces */
 
 /* bring the object (or crypt()'s static object for ep 3) into a prior state.  Object images of
    "after a success of another phrase" and "after a failure" are captured once and copied in. */
@@ -77,13 +78,30 @@ static void
 one_call (int ep, int state, int m, const char *phrase, const char *setting, int mandatory, const char *klass, const char *replay)
 {
   char sig[220], why[80];
-  prepare (ep, state, m);
+  if (ep < 4)
+    prepare (ep, state, m);
+  else
+    prev_for_call = prev_success[m];
   size_t sl = setting ? strlen (setting) : 0;
   snprintf (cj, sizeof cj, "{\"entry\":\"%s\",\"prior_state\":\"%s\",\"class\":\"%s\",\"phrase_len\":%zu,\"setting\":%s,\"replay\":\"%s\"",
             epname[ep], stname[state], klass, phrase ? strlen (phrase) : 0, vh_jstr (setting), replay);
   char *r = 0;
   void *dp = D;
   int dsz = sizeof *D;
+  if (ep >= 4)
+    {
+      /* the call itself must allocate (4) or replace (5) the object: the failure token has to survive that */
+      free (ra_dp);
+      ra_dp = 0;
+      dsz = 0;
+      if (ep == 5)
+        {
+          dsz = 200;
+          ra_dp = malloc (200);
+          memset (ra_dp, 0xA5, 200);
+          snprintf (ra_dp, 200, "%s", state == ST_FAILURE ? "*0" : state == ST_SUCCESS ? prev_success[m] : "");
+        }
+    }
   errno = 0;
   int k = VH_TRY (vh_thorough ? 3000 : 1000);
   if (k == 0)
@@ -93,6 +111,7 @@ one_call (int ep, int state, int m, const char *phrase, const char *setting, int
         case 0: r = crypt_rn (phrase, setting, D, sizeof *D); break;
         case 1: r = crypt_r (phrase, setting, D); break;
         case 2: r = crypt_ra (phrase, setting, &dp, &dsz); break;
+        case 4: case 5: r = crypt_ra (phrase, setting, &ra_dp, &dsz); break;
         default: r = crypt (phrase, setting); break;
         }
       VH_END ();
@@ -115,8 +134,10 @@ one_call (int ep, int state, int m, const char *phrase, const char *setting, int
   if (dp != D)
     vh_internal ("crypt_ra moved an adequate block");
   const char *out = ep == 3 ? r : D->output;      /* crypt(): only the return value is observable */
+  if (ep >= 4)
+    out = ra_dp && dsz >= (int) sizeof (struct crypt_data) ? ((struct crypt_data *) ra_dp)->output : 0;
   int failed;
-  if (ep == 0 || ep == 2)
+  if (ep == 0 || ep == 2 || ep >= 4)
     failed = r == 0;
   else
     failed = r == 0 || r[0] == '*';
@@ -156,7 +177,7 @@ one_call (int ep, int state, int m, const char *phrase, const char *setting, int
   if (vh_distinct (vh_hash_str (setting ? setting : "(null)", (uint64_t) (ep * 4 + state))))
     vh_stat ("distinct_nontrivial", 1);
   /* every failure, mandatory or not */
-  if ((ep == 0 || ep == 2) && r != 0)
+  if ((ep == 0 || ep == 2 || ep >= 4) && r != 0)
     vh_internal ("unreachable");
   if (e != EINVAL && e != ERANGE && e != ENOMEM)
     {
@@ -206,6 +227,14 @@ all_ways (int m, const char *phrase, const char *setting, int mandatory, const c
           continue;
         one_call (ep, st, m, phrase, setting, mandatory, klass, replay);
       }
+  /* crypt_ra on a handle it has to allocate or replace during the (failing) call */
+  unsigned pick = (unsigned) (vh_hash_str (replay, 2) % 2);
+  if (full || pick == 0)
+    one_call (4, ST_FRESH, m, phrase, setting, mandatory, klass, replay);
+  if (full || pick == 1)
+    one_call (5, full ? ST_FAILURE : ST_SUCCESS, m, phrase, setting, mandatory, klass, replay);
+  if (full)
+    one_call (5, ST_SUCCESS, m, phrase, setting, mandatory, klass, replay);
 }
 
 /* slab 1: byte BV at position POS of base setting B of method M */
